@@ -703,3 +703,77 @@ def full_init(facts):
         if (r, f) not in seen_fields:
             out.append(ob("lifecycle.full-init", "%s:%s:anchor" % (short(r), f), r, "unrecognised", "no allocation of this field found", ""))
     return out
+
+
+DIAGNOSTIC_FNS = ("to_string", "type_as_string", "mode_as_string", "print", "operator<<")
+
+
+def container_allocators(facts):
+    """'all memory is obtained through the allocator supplied by the user': analysed on drivers/x_alloc.cpp, where every family is
+    instantiated with verif_alloc<T> (not std::allocator), so the allocator of every container in the typed AST is visible.
+    (1) no std::vector / std::basic_string constructed, declared or held as a field by allocator-parameterised library code may
+    use an allocator type other than the user's; (2) every construction of such a container passes an allocator instance
+    (constructor has an allocator parameter) or copies / moves an existing container - a default-constructed allocator is a
+    different instance for stateful allocators.  Diagnostic formatting (to_string via std::ostringstream) is a reviewed exception."""
+    from astu import functions_by
+    d = facts.load("x_alloc")
+    out = []
+    seen = set()
+    n_ok = 0
+    for fn in d["functions"]:
+        if "verif_alloc" not in fn["qname"] or fn.get("body") is None or fn["pat"] in seen:
+            continue
+        if not fn["pat"].split("/")[0] in ("common", "theta", "tuple", "hll", "cpc", "kll", "req", "quantiles", "fi", "count", "sampling", "tdigest", "filters", "density"):
+            continue
+        seen.add(fn["pat"])
+        diag = fn["name"] in DIAGNOSTIC_FNS
+        idx = [0]
+
+        def v(n):
+            nonlocal n_ok
+            if n.get("k") != "Construct":
+                return
+            t = n.get("t") or ""
+            if not re.match(r"(const )?std::(vector|basic_string)<", t):
+                return
+            pt = n.get("ptypes") or []
+            key = "%s:%s#%d" % (short(fn["patq"]), "container", idx[0])
+            if "verif_alloc" not in t:
+                idx[0] += 1
+                if diag:
+                    out.append(ob("container.foreign-allocator", key, n["loc"], "info", "diagnostic formatting uses %s (reviewed exception)" % t[:50], fn["qname"]))
+                else:
+                    out.append(ob("container.foreign-allocator", key, n["loc"], "violated", "`%s` constructed inside %s although the sketch was instantiated with a user allocator: this memory comes from std::allocator (global operator new), not from the allocator supplied by the user" % (t[:60], fn["name"]), fn["qname"]))
+                return
+            copyish = len(pt) == 1 and re.match(r"(const )?std::(vector|basic_string)<", pt[0])
+            has_alloc = any("verif_alloc" in p and not re.match(r"(const )?std::(vector|basic_string|initializer_list)<", p) for p in pt)
+            if copyish or has_alloc:
+                n_ok += 1
+                return
+            idx[0] += 1
+            if diag:
+                out.append(ob("container.allocator-passed", key, n["loc"], "info", "diagnostic formatting (reviewed exception)", fn["qname"]))
+            else:
+                out.append(ob("container.allocator-passed", key, n["loc"], "violated", "`%s` constructed in %s without an allocator argument (%s): it allocates through a default-constructed instance of the user's allocator type instead of the instance held by the sketch" % (t[:70], fn["name"], "ctor(%s)" % ", ".join(x[:30] for x in pt)), fn["qname"]))
+        walk(fn["body"], v)
+        for i in fn.get("inits", []):
+            if i.get("e"):
+                walk(i["e"], v)
+    out.append(ob("container.allocator-passed", "all:constructions", "", "discharged", "%d container constructions in allocator-parameterised code pass the user's allocator or copy/move an existing container" % n_ok, ""))
+    nf = 0
+    for r in d["records"]:
+        q = r.get("qname") or ""
+        if "verif_alloc" not in q:
+            continue
+        for f in r["fields"]:
+            t = f["t"]
+            if re.search(r"std::(vector|basic_string|map|set|deque|list|unordered_map)<", t):
+                nf += 1
+                key = "%s::%s:field-allocator" % (short(r.get("tmpl") or q), f["n"])
+                if "verif_alloc" in t:
+                    out.append(ob("container.foreign-allocator", key, r.get("loc", ""), "discharged", "field uses the user's allocator type", q))
+                else:
+                    out.append(ob("container.foreign-allocator", key, r.get("loc", ""), "violated", "field `%s` has type `%s`: a member container with std::allocator inside a sketch instantiated with a user allocator" % (f["n"], t[:70]), q))
+    if n_ok < 50 or nf < 10:
+        out.append(ob("container.allocator-passed", "anchor", "", "unrecognised", "only %d constructions / %d fields recognised in the custom-allocator instantiation" % (n_ok, nf), ""))
+    return out
